@@ -30,12 +30,15 @@ fn check_range_uspace(maxlen: u64, faults: u8) {
     let (s, d) = unsafe { (&SRC, &DST) };
     match r {
         Ok(k) => {
-            assert!(k == n, "C05: userspace range copy returned Ok with a count different from the request");
-            assert!(m::same_range(off as u64, (off + n) as u64), "C05: bytes of the requested range differ");
+            // like copy_file_range(2): the whole request, or -- at end of file -- what precedes it
+            let avail = if s.len > off as u64 { (s.len - off as u64) as usize } else { 0 };
+            let want = if n < avail { n } else { avail };
+            assert!(k == want, "C05: userspace range copy returned Ok with a count that is neither the request nor what precedes end of file");
+            assert!(m::same_range(off as u64, (off + k) as u64), "C05: bytes of the copied range differ");
             assert!(unsafe { !m::FAULT_SEEN }, "C04: injected I/O error swallowed by copy_range_uspace");
             let mut j = 0;
             while j < unsafe { m::LIM } {
-                if j < off || j >= off + n {
+                if j < off || j >= off + k {
                     assert!(d.data[j] == d0.data[j], "C05: byte outside the requested range modified");
                 }
                 j += 1;
@@ -45,10 +48,9 @@ fn check_range_uspace(maxlen: u64, faults: u8) {
             core::mem::forget(k);
         }
         Err(e) => {
-            // an error is only legitimate if something went wrong: short write, EOF inside
-            // the range, or an injected fault
-            assert!(unsafe { m::SHORT_SEEN || m::FAULT_SEEN } || (off + n) as u64 > s.len,
-                    "C05: spurious failure of copy_range_uspace");
+            // an error is only legitimate if something went wrong: a short write or an injected fault
+            // (end of file inside the range is a short count, not an error)
+            assert!(unsafe { m::SHORT_SEEN || m::FAULT_SEEN }, "C05: spurious failure of copy_range_uspace");
             kani::cover!(unsafe { m::FAULT_SEEN }, "injected fault reported");
             core::mem::forget(e);
         }
